@@ -50,7 +50,8 @@ Proof. unfold pend, kin. apply countN_ext. intros e _. cbn [memN existsb negb]. 
 Section Loop.
 Variable E : list edge.
 Variable objs : list N.
-Hypothesis WF : forall e, In e E -> In (e_src e) objs /\ In (e_cod e) objs.
+Hypothesis WFs : forall e, In e E -> In (e_src e) objs.
+Hypothesis WFc : forall e, In e E -> In (e_cod e) objs.
 
 Definition no_back (a b : edge) : Prop := e_cod b <> e_src a.
 Definition no_self (a : edge) : Prop := e_cod a <> e_src a.
@@ -99,7 +100,7 @@ Proof.
   { intros x d Hd. apply (i_some _ _ _ _ HI) in Hd. apply Hd. }
   assert (H2 : forall x, 0 < kin es x -> exists d, mget deg x = Some d /\ kin es x <= d).
   { intros x Hk. destruct (countN_pos _ _ Hk) as [e [Hin Hc]]. apply in_oe in Hin. destruct Hin as [HeE _].
-    unfold codb in Hc. apply N.eqb_eq in Hc. destruct (WF e HeE) as [_ Hobj]. rewrite Hc in Hobj.
+    unfold codb in Hc. apply N.eqb_eq in Hc. pose proof (WFc e HeE) as Hobj. rewrite Hc in Hobj.
     destruct (mget deg x) as [d|] eqn:Hd.
     - exists d. split; [reflexivity|]. apply (i_some _ _ _ _ HI) in Hd. destruct Hd as [_ [Hd _]].
       specialize (Hsplit x). lia.
@@ -196,14 +197,14 @@ Proof.
   { pose proof (i_nd _ _ _ _ HI) as H. rewrite app_nil_r in H. exact H. }
   pose proof (group_by_src_perm ps Hnd E) as Hp.
   rewrite filter_all_false, app_nil_r in Hp; [exact Hp|].
-  intros e He. apply negb_false_iff. apply memN_In. destruct (WF e He) as [Hs _].
+  intros e He. apply negb_false_iff. apply memN_In. pose proof (WFs e He) as Hs.
   destruct (i_none _ _ _ _ HI (e_src e) Hs eq_refl) as [Hin _]. rewrite app_nil_r in Hin. exact Hin.
 Qed.
 
 Lemma Inv_final_acyclic ps out : Inv ps [] [] out -> forall z, ~ path (EdgeR E) z z.
 Proof.
   intros HI z Hp. apply (i_acy _ _ _ _ HI z); [|exact Hp].
-  destruct (path_src _ _ _ Hp) as [c [e [He [Hsrc _]]]]. destruct (WF e He) as [Hs _].
+  destruct (path_src _ _ _ Hp) as [c [e [He [Hsrc _]]]]. pose proof (WFs e He) as Hs.
   rewrite Hsrc in Hs. apply (i_none _ _ _ _ HI z Hs eq_refl).
 Qed.
 
@@ -219,7 +220,7 @@ Proof.
   exists (e_src e). split.
   - destruct (mget m (e_src e)) as [d0|] eqn:Hd0.
     + apply mget_In in Hd0. change (e_src e) with (fst (e_src e, d0)). apply in_map. exact Hd0.
-    + exfalso. destruct (WF e He) as [Hobj _]. destruct (i_none _ _ _ _ HI _ Hobj Hd0) as [Hin _].
+    + exfalso. pose proof (WFs e He) as Hobj. destruct (i_none _ _ _ _ HI _ Hobj Hd0) as [Hin _].
       rewrite app_nil_r in Hin. contradiction.
   - exists e. split; [exact He|]. split; [reflexivity | exact Hc].
 Qed.
